@@ -216,7 +216,7 @@ class GenericSystemRegistry(
 
         base_factor = self.convert(factor, units, destination_units)
 
-        if check_nonmult:
+        if check_nonmult and system == self._default_system_name:
             self._base_units_cache[input_units] = base_factor, destination_units
 
         return base_factor, destination_units
